@@ -3,7 +3,10 @@
 Deliberately not the library's string parser: HP floats are read through `decimal`, never through
 format()/divmod() on floats; object fields are combined in exact rational arithmetic."""
 import math
+import decimal
 from decimal import Decimal, ROUND_HALF_EVEN
+
+_EXACT = decimal.Context(prec=80)
 from fractions import Fraction
 
 ARCSEC = Fraction(1, 3600)
@@ -17,7 +20,14 @@ _Q12 = Decimal(1).scaleb(-12)
 def hp_read(h):
     """Read an HP-notation float DDD.MMSSsss... as a decimal numeral at the notation's resolution:
     13 decimals (1e-9"), 12 decimals for |h| >= 512 where float64 cannot distinguish 1e-13.
-    Returns (valid, degrees_as_Fraction_or_None, (D, MM, SS_fraction))."""
+    Returns (valid, degrees_as_Fraction_or_None, (D, MM, SS_fraction)).  Evaluated in an explicit decimal
+    context of its own: the ambient context of the process (a host program may have lowered its precision)
+    rounds every Decimal operation, abs() included."""
+    with decimal.localcontext(_EXACT):
+        return _hp_read(h)
+
+
+def _hp_read(h):
     h = float(h)
     d = Decimal(h)
     q = _Q13 if abs(h) < 512 else _Q12
